@@ -122,9 +122,9 @@ func cmdCheck(args []string) int {
 	if !*keep {
 		defer os.RemoveAll(tmp)
 	}
-	cfg := SolverCfg{TmpDir: tmp, TimeoutS: 10}
+	cfg := SolverCfg{TmpDir: tmp, TimeoutS: 30}
 	if *tier == "thorough" {
-		cfg.TimeoutS = 60
+		cfg.TimeoutS = 120
 		cfg.Confirm = true
 	}
 
